@@ -531,6 +531,8 @@ class Exec(ExprMixin, HeapMixin, StmtMixin, CallMixin, BuiltinMixin):
 
     def spec_utf8(self, e, st):
         v = self.ev(e.args[0], st)
+        if isinstance(v.t, TOpt):      # utf8(opt) under a guard `x is not None` (value of the some-case)
+            v = opt_get(v)
         return V(BYTES, prelude().utf8(v.z))
 
     def spec_valid_utf8(self, e, st):
